@@ -23,8 +23,16 @@ pub fn params(tier: Tier, quarantined: bool) -> LitmusParams {
 pub fn build(prop: &str, draws: &[u16], tier: Tier) -> Case {
     let mut s = Src::new(draws);
     // stream selection: 0..=5 main stream (shape / free-form), 6 quarantined (known-defect classes)
-    let sel = s.pick(8);
+    let sel = s.pick(9);
     let (family, prog) = match sel {
+        // all-SeqCst programs without fences: here the two references (R-SC interleavings and R-AX in its
+        // strongest reading) must coincide - a cross-check of the oracles themselves
+        8 => ("sc-only", {
+            let mut lp = params(tier, false);
+            lp.sc_only = true;
+            lp.fences = false;
+            gen::litmus(&mut s, &lp)
+        }),
         0 | 1 => ("shape", gen::litmus_shape(&mut s, &params(tier, false))),
         2 | 3 => ("chain", gen::litmus_chain(&mut s, &params(tier, false))),
         4 | 5 | 6 => ("free", gen::litmus(&mut s, &params(tier, false))),
@@ -109,6 +117,25 @@ pub fn eval(case: &Case, must: bool) -> Verdict {
         let mut o = refsc::Opts::new();
         o.max_states = 200_000;
         let sc = refsc::explore(p, o);
+        // oracle cross-check on sequentially consistent programs
+        // (main's final loads after the last join are relaxed; they are ordered after everything)
+        let last_join = p.threads[0].iter().rposition(|o| matches!(o, Op::Join { .. })).unwrap_or(usize::MAX);
+        let all_sc = !sc.truncated
+            && p.ops().filter(|(t, i, _)| !(*t == 0 && last_join != usize::MAX && *i > last_join)).all(|(_, _, o)| match o {
+                Op::Load { o, .. } | Op::Store { o, .. } | Op::Swap { o, .. } | Op::FetchAdd { o, .. } => *o == MO::Sc,
+                Op::Cas { s, f, .. } => *s == MO::Sc && *f == MO::Sc,
+                Op::Fence { .. } | Op::Await { .. } => false,
+                _ => true,
+            });
+        if all_sc {
+            v.label("oracle_crosscheck_sc");
+            if sc.outcomes != br.a.outcomes {
+                return Verdict::skip(&format!(
+                    "ORACLE-BUG: on an all-SeqCst program the interleaving reference and the axiomatic reference disagree: R-SC {:?} vs R-AX {:?}",
+                    set_str(&sc.outcomes), set_str(&br.a.outcomes)
+                ));
+            }
+        }
         let weak = br.a.outcomes.iter().any(|x| !sc.outcomes.contains(x));
         if weak {
             v.label("weak_outcome_required");
